@@ -147,6 +147,9 @@ func main() {
 		ho.WallSec = time.Since(t1).Seconds()
 		ho.Paths, ho.Decisions, ho.Kinds, ho.Sites = ex.Paths, ex.Decisions, ex.Kinds, ex.Sites
 		ho.Queries, ho.Sat, ho.Unsat, ho.Unknown, ho.SolverErrs, ho.SolverSec = ex.Queries, ex.NSat, ex.NUnsat, ex.NUnknown, ex.NErrs, ex.SolverSec
+		if ex.ErrorSample != "" {
+			fmt.Fprintf(os.Stderr, "  solver error sample: %s\n", ex.ErrorSample)
+		}
 		ho.Merges, ho.MergeFails, ho.Truncated = ex.Merges, ex.MergeFails, ex.Truncated
 		ho.StubHit = ex.StubHit
 		// keep the top functions by instruction count
